@@ -98,7 +98,13 @@ macro_rules! impl_bit_value {
                 if val & (1 << (len - 1)) == 0 {
                     val
                 } else {
-                    val.wrapping_neg() | (1 << (len - 1))
+                    // magnitude in the low len-1 bits; a zero magnitude is written as plus zero
+                    let mag = val.wrapping_neg() & !(-1 << (len - 1));
+                    if mag == 0 {
+                        0
+                    } else {
+                        mag | (1 << (len - 1))
+                    }
                 }
             }
         }
